@@ -95,6 +95,7 @@ func genCaseC02(t *rapid.T) *c02Case {
 	base.Op = d.Ops[0].Name
 	base.LateRegister = rapid.IntRange(0, 4).Draw(t, "lateRegister") == 0
 	base.KeepParsed = base.LateRegister && rapid.Bool().Draw(t, "keepParsed")
+	base.Decoy = rapid.IntRange(0, 3).Draw(t, "decoyRoots") == 0
 	if rapid.IntRange(0, 3).Draw(t, "tightDepth") == 0 {
 		// the depth limit set to what the request needs: every strategy and every list representation
 		// has to count the levels alike
